@@ -31,7 +31,10 @@ EXHAUSTIVE_NOTE = "core: every gate keyword in both cases x fan-in 1..3; BUFF; c
 EXAMPLES = {"quick": 900, "thorough": 25000}
 
 KW = ["buf", "buff", "not", "and", "nand", "or", "nor", "xor", "xnor"]
-NAMES = [n for n in S.BENIGN] + ["G10gat", "n_12", "net_3", "a_b", "II7", "x_1_2"]
+NAMES = [n for n in S.BENIGN] + ["G10gat", "n_12", "net_3", "a_b", "II7", "x_1_2",
+                                 "u0_core_alu_adder_stage3_carry_lookahead_unit_generate_propagate_bit_17_n_4821",
+                                 "top_cpu0_decode_pipeline_register_bank_1_write_enable_gated_clock_domain_b_n74",
+                                 "x" * 75, "y" * 76]
 WSP = ["", " ", "  ", "\t", " \t "]
 
 
@@ -77,7 +80,7 @@ def _bench(draw, ctx):
         kw = draw(st.sampled_from(KW))
         if draw(st.booleans()):
             kw = kw.upper()
-        k = 1 if kw.lower() in ("buf", "buff", "not") else draw(st.sampled_from([1, 2, 2, 3, 3, 4, 5]))
+        k = 1 if kw.lower() in ("buf", "buff", "not") else draw(st.sampled_from([1, 2, 2, 3, 3, 4, 5, 17, 18, 19, 24]))
         uniq = draw(st.integers(0, 5)) != 0
         ops = draw(st.lists(st.sampled_from(avail), min_size=k, max_size=k, unique=uniq)) if (uniq and k <= len(avail)) else \
             draw(st.lists(st.sampled_from(avail), min_size=k, max_size=k))
@@ -112,8 +115,26 @@ def _bench(draw, ctx):
 
 @st.composite
 def _rt(draw, ctx):
-    spec = draw(S.circuit_spec(min_inputs=1, max_inputs=5, min_gates=1, max_gates=10, max_fanin=5, pools=(NAMES,),
-                               io_outputs=True))
+    wide = draw(st.integers(0, 5)) == 0
+    spec = draw(S.circuit_spec(min_inputs=8 if wide else 1, max_inputs=10 if wide else 5, min_gates=1, max_gates=10,
+                               max_fanin=24 if wide else 5, pools=(NAMES,), io_outputs=True))
+    if wide:
+        # one really wide gate over all inputs and gates defined so far
+        allsrc = [x[0] for x in spec["nodes"] if x[1] == "input"]
+        gates = [x for x in spec["nodes"] if x[1] in S.NARY]
+        if gates:
+            gt = gates[-1]
+            others = [x[0] for x in spec["nodes"] if x[1] in S.ALL_GATES and x is not gt and gt[0] not in x[2]][:12]
+            # keep the circuit acyclic: only nodes that do not depend on gt
+            dep = {gt[0]}
+            changed = True
+            while changed:
+                changed = False
+                for x in spec["nodes"]:
+                    if x[0] not in dep and any(f in dep for f in x[2]):
+                        dep.add(x[0])
+                        changed = True
+            gt[2] = list(dict.fromkeys(gt[2] + allsrc + [o for o in others if o not in dep]))
     return {"kind": "rt", "spec": spec, "route": draw(st.sampled_from(["string", "string", "file_suffix", "file_fmt"]))}
 
 
